@@ -127,6 +127,13 @@ def longest_first(ctx):
         cells = check_ray(ctx, ray, origin, a, f'first query of the process, a {h}x{w} strip from {origin} at angle {rad}')
         if len(cells) < L and h <= 3:
             ctx.fail(f'first query of the process: the ray along a {h}x{w} strip from {origin} visits only {len(cells)} cells', {'kind': 'ray'})
+    if ctx.shard % 4 == 0 and not ctx.replaying:
+        # a 360-degree fan over a corridor of more than 10,000 cells (step counts in the millions)
+        h, w = 3, 10500
+        a = [[0, h - 1], [0, w - 1]]
+        for k, ray in enumerate(rt.compute_rays(Position(1, 0), objs.build_area(a))):
+            check_ray(ctx, ray, (1, 0), a, f'360-degree fan over a {h}x{w} corridor, ray {k}')
+        ctx.ev.count('prelude:corridor_10500')
     ctx.ev.count(f'prelude:longest_first_{L}')
 
 
@@ -173,7 +180,7 @@ small_q = st.tuples(st.integers(1, 5), st.integers(1, 5), st.integers(0, 4), st.
 
 
 def strat_hist(tier):
-    return st.fixed_dictionaries({'queries': st.lists(small_q, min_size=2, max_size=12), 'scribble': st.booleans()})
+    return st.fixed_dictionaries({'queries': st.lists(small_q, min_size=2, max_size=12), 'scribble': st.booleans(), 'both_fans': st.sampled_from([0, 1, 2])})
 
 
 def oracle_hist(case, ctx):
@@ -184,7 +191,19 @@ def oracle_hist(case, ctx):
         a = [[oy, oy + h - 1], [ox, ox + w - 1]]
         origin = (oy + py % h, ox + px % w)
         A, P = objs.build_area(a), Position(*origin)
+        # the library offers two memoised fans (360 one-degree rays; rays through the corners of the border cells): a caller may use both
+        # for the same origin and area, in either order
+        both = case.get('both_fans', 0) if len(first) < 2 else 0
+        if both == 1:
+            r360 = guarded(ctx, 'cached_compute_rays', rt.cached_compute_rays, P, A)
         cached = guarded(ctx, 'cached_compute_rays_fancy', rt.cached_compute_rays_fancy, P, A)
+        if both == 2:
+            r360 = guarded(ctx, 'cached_compute_rays', rt.cached_compute_rays, P, A)
+        if both:
+            if as_cells(r360) != as_cells(rt.compute_rays(P, A)):
+                ctx.fail(f'cached 360-degree fan for origin {origin} area {a} differs from an uncached computation ({"asked before" if both == 1 else "asked after"} the corner fan)', {'kind': 'ray_cache'})
+            for k, r in enumerate(r360):
+                check_ray(ctx, r, origin, a, f'cached 360-degree fan ray {k}')
         cells = as_cells(cached)
         check_fan(ctx, cached, origin, a, f'after {len(first)} other queries, {h}x{w}')
         fresh = as_cells(rt.compute_rays_fancy(P, A))
@@ -202,7 +221,7 @@ def oracle_hist(case, ctx):
             for r in mine:
                 r.clear()
             mine.clear()
-    ctx.ev.case(case, nt=(len(first) >= 2), classes=['repeat_query'] if kinds else ['distinct_queries'])
+    ctx.ev.case(case, nt=(len(first) >= 2), classes=(['repeat_query'] if kinds else ['distinct_queries']) + ([f'both_fans:{case.get("both_fans", 0)}'] if case.get('both_fans') else []))
 
 
 def json_key(a):
@@ -218,5 +237,5 @@ CHECKS = [
           required=['far_offset', 'fn:ray', 'fn:fancy', 'fn:rays360', 'large_area', 'strip>=400']),
     Check('query_histories', oracle_hist, strategy=strat_hist, examples={'quick': 150, 'thorough': 600}, shards={'quick': 4, 'thorough': 16},
           rule='sequences of 2-12 fan queries (same origin in different areas, repeats) through the cache: every answer valid, equal to an uncached computation and to the first answer for that key',
-          required=['repeat_query']),
+          required=['repeat_query', 'both_fans:1', 'both_fans:2']),
 ]
